@@ -56,6 +56,9 @@ def to_rat(e):
         return Rat.const(e[1])
     if t == "bool":
         return Rat.const(1 if e[1] else 0)
+    if t in ("+", "-") and len(e) == 3 and _is_dateish(e[1]) and _is_offsetish(e[2]):
+        # calendar arithmetic is applied step by step and does not commute ((d - 1 day) - 1 month is not (d - 1 month) - 1 day at a month end)
+        return Rat.atom(("dateop", t, canon(e[1]), canon(e[2])))
     if t == "+":
         return to_rat(e[1]).add(to_rat(e[2]))
     if t == "-":
@@ -89,6 +92,37 @@ def to_rat(e):
     return Rat.atom(canon(e))
 
 
+def _is_dateish(x):
+    """a node's clock, or a clock moved by offsets"""
+    if not (isinstance(x, tuple) and x):
+        return False
+    if x[0] == "fld" and len(x) == 4 and x[2] == "now" and x[1] != ("param", "self"):
+        return True
+    if x[0] in ("+", "-") and len(x) == 3:
+        return _is_dateish(x[1]) and _is_offsetish(x[2])
+    if x[0] == "rat":
+        try:
+            r = Rat(dict(x[1]), dict(x[2]))
+            ats = list(r.atoms())
+            return len(ats) == 1 and ats[0][0] == "dateop" and r.canon() == Rat.atom(ats[0]).canon()
+        except Exception:
+            return False
+    return x[0] == "dateop"
+
+
+def _is_offsetish(x):
+    """something that can move a date: not a number, not a date"""
+    if not (isinstance(x, tuple) and x):
+        return False
+    if x[0] in ("num", "bool", "none", "str", "nan"):
+        return False
+    if contains(x, lambda n: isinstance(n, tuple) and len(n) == 4 and n[0] == "fld" and n[2] == "now"):
+        return False
+    if contains(x, lambda n: n == ("param", "date")):
+        return False
+    return x[0] in ("fld", "param", "call", "attr", "new", "mcall")
+
+
 def _abs_norm(r):
     """abs(-x) == abs(x): pick a canonical sign for the argument."""
     a, b = r.canon(), r.neg().canon()
@@ -110,6 +144,43 @@ def canon(e):
 def _is_small_const(e):
     r = to_rat(e).const_value()
     return r is not None and 0 < r <= SMALL
+
+
+_FULL_SLICE = ("slice", ("none",), ("none",), ("none",))
+_WINDOWED_PROPS = ("positions", "universe", "prices", "values", "outlays", "notional_values", "bidoffers", "bidoffers_paid")
+_WINDOWED_FIELDS = ("_funiverse",)
+
+
+def _windowed_owner(x):
+    """the node whose clock bounds the history x (an accessor that hands out rows up to that node's `now`), else None"""
+    if isinstance(x, tuple) and x:
+        if x[0] == "prop" and len(x) == 3 and x[2] in _WINDOWED_PROPS:
+            return x[1]
+        if x[0] == "fld" and len(x) == 4 and x[2] in _WINDOWED_FIELDS:
+            return x[1]
+    return None
+
+
+def _canon_indexer(e):
+    """pandas label indexing in one spelling: X.loc[r, :] is X.loc[r]; X.loc[r].loc[c] is X.loc[r, c]; the last row of a history
+    that ends at its node's clock is the row of that clock."""
+    X, kind, idx = e[1][1], e[1][2], e[2]
+    if kind == "loc" and idx[0] == "tuple" and len(idx) == 3 and idx[2] == _FULL_SLICE and idx[1][0] not in ("slice", "tuple"):
+        return canon(("sub", ("attr", X, "loc"), idx[1]))
+    if kind == "iloc" and _windowed_owner(X) is not None:
+        try:
+            c = to_rat(idx).const_value()
+        except Exception:
+            c = None
+        if c is not None and c == -1:
+            return canon(("sub", ("attr", X, "loc"), ("fld", _windowed_owner(X), "now", 0)))
+    if (kind == "loc" and isinstance(X, tuple) and len(X) == 3 and X[0] == "sub" and isinstance(X[1], tuple) and len(X[1]) == 3 and X[1][0] == "attr" and X[1][2] in ("loc", "iloc")
+            and idx[0] not in ("tuple",)):
+        inner = canon(X)
+        if (isinstance(inner, tuple) and len(inner) == 3 and inner[0] == "sub" and isinstance(inner[1], tuple) and len(inner[1]) == 3 and inner[1][0] == "attr" and inner[1][2] == "loc"
+                and isinstance(inner[2], tuple) and inner[2] and inner[2][0] not in ("slice", "tuple", "list", "comp", "cmp", "call", "mcall")):
+            return ("sub", inner[1], ("tuple", inner[2], canon(idx)))
+    return None
 
 
 def _strip_snapshot(it, calls=("list", "tuple")):
@@ -144,6 +215,13 @@ def _canon(e):
             return canon(args[0])  # truth value of x (values are compared as truth values where they are used as such)
         if f in SQRT_FUNCS and len(args) == 1:
             return ("call", "sqrt", (canon(args[0]),), ())
+        if f == "isinstance" and len(args) == 2 and not kw and isinstance(args[0], tuple) and args[0] and args[0][0] in ("num", "str") and args[1] in (("func", "int"), ("func", "str")):
+            # a literal argument (a default position such as `_get_backtest(0)`) is what it is
+            if args[0][0] == "str":
+                return ("bool", args[1] == ("func", "str"))
+            return ("bool", args[1] == ("func", "int") and args[0][1].denominator == 1)
+        if f == "set.union" and len(args) == 2 and not kw:
+            return canon(("|", args[0], args[1]))  # the union of two sets
         if f in ("list", "tuple", "set", "sorted", "frozenset") and len(args) == 1 and not kw:
             a = _strip_snapshot(args[0]) if f in ("list", "tuple") else _strip_snapshot(args[0], calls=())  # the elements of a copy of xs are the elements of xs
             if a is not args[0]:
@@ -208,6 +286,8 @@ def _canon(e):
         inner = canon(e[1])
         if isinstance(inner, tuple) and inner and inner[0] == "ditem" and e[2] in (0, 1):
             return ("dkey" if e[2] == 0 else "dval", inner[1], inner[2])
+        if isinstance(inner, tuple) and inner and inner[0] == "tuple" and isinstance(e[2], int) and 0 <= e[2] < len(inner) - 1:
+            return inner[e[2] + 1]
         return ("item", inner, e[2])
     if t == "sub" and len(e) == 3 and isinstance(e[2], tuple) and isinstance(e[1], tuple):
         k = canon(e[2])
@@ -216,6 +296,10 @@ def _canon(e):
             if b == k[1]:
                 return ("dval", k[1], k[2])  # d[k] for the key being iterated is the value being iterated
             return ("sub", b, k)
+    if t == "sub" and len(e) == 3 and isinstance(e[1], tuple) and len(e[1]) == 3 and e[1][0] == "attr" and e[1][2] in ("loc", "iloc") and isinstance(e[2], tuple) and e[2]:
+        r = _canon_indexer(e)
+        if r is not None:
+            return r
     if t in ("mcall", "call") and _dict_iter(e) is not None:
         return ("dictiter", canon(_dict_iter(e)[1]))
     if t == "comp" and len(e) == 5 and e[1] == "dict" and not e[4]:
@@ -231,7 +315,19 @@ def _canon(e):
             filt = _canon_any(e[4])
         it = e[3]
         it = _strip_snapshot(it)  # iterating a snapshot of xs is iterating xs
-        return ("comp", e[1], _canon_any(e[2]) if not (isinstance(e[2], tuple) and e[2] and isinstance(e[2][0], str)) else canon(e[2]), canon(it) if isinstance(it, tuple) else it, filt)
+        if isinstance(it, tuple) and len(it) == 5 and it[0] == "comp" and it[1] in ("list", "gen"):
+            # a comprehension over a list built by another comprehension is one comprehension over the inner source:
+            # [f(a, b) for a, b in [(g(x), h(x)) for x in xs]]  is  [f(g(x), h(x)) for x in xs]
+            raws = (e[3], it)
+            targets = set(n for part in (e[2], tuple(a for a, _ in e[4]) if isinstance(e[4], tuple) else ()) for n in walk(part)
+                          if isinstance(n, tuple) and len(n) == 3 and n[0] == "elem" and n[1] in raws)
+            mapping = {n: it[2] for n in targets}
+            body2 = substitute(e[2], mapping) if mapping else e[2]
+            filt2 = tuple((substitute(a, mapping), p) for a, p in e[4]) + tuple(it[4])
+            return canon(("comp", e[1], body2, it[3], filt2))
+        di_ = _dict_iter(it) if isinstance(it, tuple) else None
+        it_c = ("dictiter", canon(di_[1])) if (di_ is not None and di_[0] == "keys") else (canon(it) if isinstance(it, tuple) else it)
+        return ("comp", e[1], _canon_any(e[2]) if not (isinstance(e[2], tuple) and e[2] and isinstance(e[2][0], str)) else canon(e[2]), it_c, filt)
     if t == "dictmerge" and len(e) == 3:
         a, b = e[1], e[2]
         # the result is a new dict either way: a copy of the first operand is the first operand
@@ -248,6 +344,9 @@ def _canon(e):
         if x[0] == "none":
             return ("bool", True)
         return ("isnone", canon(x))
+    if t == "attr" and len(e) == 3 and isinstance(e[1], tuple) and e[1] and e[1][0] == "ite" and len(e[1]) == 4:
+        # (a if c else b).n  is  a.n if c else b.n
+        return canon(("ite", e[1][1], ("attr", e[1][2], e[2]), ("attr", e[1][3], e[2])))
     # generic structural recursion
     out = [t]
     for x in e[1:]:
@@ -348,7 +447,21 @@ def _dict_iter(it):
         return (it[2], it[1])
     if it[0] == "fld" and len(it) == 4 and it[2] in _DICT_FIELDS:
         return ("keys", it)
+    if it[0] == "attr" and len(it) == 3 and it[2] == "index" and _is_row(it[1]):
+        return ("keys", it[1])  # the labels of a row (a Series): its .index and its .keys() are the same object
     return None
+
+
+def _is_row(y):
+    """one row picked out of a table by a single label / position: X.loc[r], X.iloc[i], X.loc[r, :]  (a Series)"""
+    if not (isinstance(y, tuple) and len(y) == 3 and y[0] == "sub" and isinstance(y[1], tuple) and len(y[1]) == 3 and y[1][0] == "attr" and y[1][2] in ("loc", "iloc")):
+        return False
+    idx = y[2]
+    if not (isinstance(idx, tuple) and idx):
+        return False
+    if idx[0] == "tuple":
+        return len(idx) == 3 and idx[2] == _FULL_SLICE and idx[1][0] in ("fld", "param", "num", "rat", "neg")
+    return idx[0] in ("fld", "param", "num", "rat", "neg")
 
 
 _FRAME_NAMES = ("universe", "data", "_universe", "_funiverse", "_original_data")
@@ -360,6 +473,10 @@ def _never_none(x):
         return True
     if x[0] == "rat":
         return True
+    if x[0] == "fld" and len(x) == 4 and x[2] == "now":
+        return True  # a node's clock starts at 0 and is only ever set to a date
+    if x[0] == "sub" and len(x) == 3 and isinstance(x[1], tuple) and len(x[1]) == 3 and x[1][0] == "attr" and x[1][2] in ("loc", "iloc"):
+        return True  # label / position indexing selects rows, columns or cells of numeric tables (pandas contract; bt's tables hold floats)
     if x[0] == "sub" and len(x) == 3 and isinstance(x[1], tuple) and x[1]:
         # a column / row of one of bt's price frames is a Series or a number, never None (pandas indexing contract)
         b = x[1]
